@@ -272,3 +272,144 @@ def int_narrowing_size_rule(rule, c, functions):
                 else:
                     rule.violation(key, where, "a Python integer is narrowed to `%s` before any range test: 2**32 + k is taken for k" % ty, "int_t", ty)
     return n
+
+
+# --------------------------------------------------------------------------------------
+def reshape_guard_rule(rule, c, functions):
+    """Outside the constructors and the size setter (which have their own rule), an assignment
+    to nrows/ncols of an existing matrix `MAT_NROWS(X) = a; MAT_NCOLS(X) = b;` re-shapes X's
+    buffer: the enclosing condition must contain `MAT_LGT(X) == a*b`, or the copy loops that
+    follow read a*b elements from a buffer of another length."""
+    n = 0
+    for fn in functions:
+        if fn not in c.funcs or fn in ("Matrix_New", "matrix_new", "matrix_set_size"):
+            continue
+        t = _ftext(c, fn)
+        for m in re.finditer(r"MAT_NROWS\s*\(\s*(\w+)\s*\)\s*=\s*([^;]+);\s*MAT_NCOLS\s*\(\s*\1\s*\)\s*=\s*([^;]+);", t):
+            X, a, b = m.group(1), " ".join(m.group(2).split()), " ".join(m.group(3).split())
+            # enclosing `if ( .. ) {`
+            i, d = m.start(), 0
+            while i > 0:
+                i -= 1
+                if t[i] == "}":
+                    d += 1
+                elif t[i] == "{":
+                    if d == 0:
+                        break
+                    d -= 1
+            j = t.rfind(")", 0, i)
+            k, d2 = j, 0
+            while k > 0:
+                if t[k] == ")":
+                    d2 += 1
+                elif t[k] == "(":
+                    d2 -= 1
+                    if d2 == 0:
+                        break
+                k -= 1
+            cond = " ".join(t[k + 1:j].split()) if re.search(r"\bif\s*$", t[:k].rstrip() + " ") or re.search(r"\bif\s*$", t[:k]) else ""
+            n += 1
+            key = "%s:reshape of %s to (%s, %s) keeps the element count" % (fn, X, a, b)
+            where = "src/C/%s:%s:%d" % (c.name, fn, _line(c, fn, t, m.start()))
+            want1 = re.compile(r"MAT_LGT\s*\(\s*%s\s*\)\s*==\s*%s\s*\*\s*%s" % (re.escape(X), re.escape(a), re.escape(b)))
+            want2 = re.compile(r"MAT_LGT\s*\(\s*%s\s*\)\s*==\s*%s\s*\*\s*%s" % (re.escape(X), re.escape(b), re.escape(a)))
+            saved = re.search(r"\b%s\s*=\s*MAT_NROWS\s*\(\s*%s\s*\)" % (re.escape(a), re.escape(X)), t[:m.start()]) and \
+                re.search(r"\b%s\s*=\s*MAT_NCOLS\s*\(\s*%s\s*\)" % (re.escape(b), re.escape(X)), t[:m.start()])
+            if saved:
+                rule.ok(key, where, "restores the dimensions saved from %s itself" % X)
+            elif want1.search(cond) or want2.search(cond):
+                rule.ok(key, where, cond[:80])
+            else:
+                rule.violation(key, where,
+                               "the dimensions of `%s` are overwritten under `%s`, which does not require MAT_LGT(%s) == %s*%s: the following copy reads "
+                               "%s*%s elements from a buffer of another length" % (X, cond[:60] or "no condition", X, a, b, a, b),
+                               "MAT_LGT(%s) == %s*%s in the guard" % (X, a, b), cond[:100])
+    return n
+
+
+ARM_ALLOC_EXCEPTIONS = {
+    ("sytri", "work"): "LAPACK documents WORK(N) for dsytri and WORK(2*N) for zsytri",
+}
+
+
+def arm_alloc_rule(rule, c, wrappers):
+    """The DOUBLE and COMPLEX arms of a wrapper allocate their work arrays with the same element
+    counts (only the element type differs): `calloc(COUNT, sizeof(T))` / `malloc(COUNT*sizeof(T))`
+    per assigned variable, compared arm by arm."""
+    n = 0
+    for fn in wrappers:
+        if fn not in c.funcs:
+            continue
+        arms = {}
+        for s in [x for x in cf.walk(c.funcs[fn]) if x.get("k") == "SwitchStmt" and x.get("b") is not None]:
+            a = switch_arm_texts(c, s)
+            if "DOUBLE" in a and "COMPLEX" in a:
+                arms = a
+        if not arms:
+            continue
+
+        def allocs(body):
+            out = {}
+            for m in re.finditer(r"\b(\w+)\s*=\s*(?:\([^()]*\)\s*)?calloc\s*\(", body):
+                j = _bal(body, m.end() - 1)
+                args = cf.split_top(body[m.end():j])
+                if len(args) == 2:
+                    out.setdefault(m.group(1), []).append("".join(args[0].split()))
+            for m in re.finditer(r"\b(\w+)\s*=\s*(?:\([^()]*\)\s*)?malloc\s*\(", body):
+                j = _bal(body, m.end() - 1)
+                arg = "".join(body[m.end():j].split())
+                arg = re.sub(r"\*?sizeof\([^()]*\)\*?", "", arg)
+                out.setdefault(m.group(1), []).append(arg)
+            return out
+        ad, az = allocs(arms["DOUBLE"]), allocs(arms["COMPLEX"])
+        for v in sorted(set(ad) & set(az)):
+            n += 1
+            key = "%s:work array `%s` has the same element count in both arms" % (fn, v)
+            where = "src/C/%s:%s" % (c.name, fn)
+            if (fn, v) in ARM_ALLOC_EXCEPTIONS:
+                rule.ok(key + ":named-exception", where, ARM_ALLOC_EXCEPTIONS[(fn, v)])
+            elif sorted(ad[v]) == sorted(az[v]):
+                rule.ok(key, where, ad[v][0][:60])
+            else:
+                rule.violation(key, where,
+                               "`%s` is allocated with %s elements in the real arm and %s in the complex arm: the routine of one arm writes past its "
+                               "work space" % (v, ad[v], az[v]), ad[v], az[v])
+    return n
+
+
+def scratch_copy_bound_rule(rule, c, wrappers):
+    """A 32-bit scratch copy of an integer matrix (`int *p = malloc(N*sizeof(int))`, LP64) is
+    transferred element by element: every copy loop between `p[i]` and `MAT_BUFI(X)[i]` runs over
+    exactly the N elements that were allocated (a shorter copy-back leaves part of the caller's
+    pivot vector stale)."""
+    from .poly import Poly
+    n = 0
+    for fn in wrappers:
+        if fn not in c.funcs:
+            continue
+        t = _ftext(c, fn)
+        for m in re.finditer(r"\bint\s*\*\s*(\w+)\s*=\s*(?:\([^()]*\)\s*)?malloc\s*\(\s*([^;]*?)\s*\*\s*sizeof\s*\(\s*int\s*\)\s*\)", t):
+            p, cnt = m.group(1), m.group(2)
+            try:
+                want = cx.to_poly(cx.parse(cnt))
+            except cx.ParseError:
+                continue
+            for lp in re.finditer(r"\bfor\s*\(\s*(\w+)\s*=\s*0\s*;\s*\1\s*<\s*([^;]+);[^)]*\)\s*([^;]*;)", t):
+                iv, bound, body = lp.group(1), lp.group(2), lp.group(3)
+                if not (re.search(r"\b%s\s*\[\s*%s\s*\]" % (re.escape(p), re.escape(iv)), body) and "MAT_BUFI" in body):
+                    continue
+                n += 1
+                key = "%s:copy loop `%s` covers the %s elements of %s" % (fn, " ".join(body.split())[:40], cnt.strip(), p)
+                where = "src/C/%s:%s:%d" % (c.name, fn, _line(c, fn, t, lp.start()))
+                try:
+                    got = cx.to_poly(cx.parse(bound))
+                except cx.ParseError:
+                    rule.undecided(key, where, "bound not parsed")
+                    continue
+                if got == want:
+                    rule.ok(key, where)
+                else:
+                    rule.violation(key, where,
+                                   "the scratch array `%s` holds %s entries but this loop transfers `%s` of them: the rest of the caller's integer matrix "
+                                   "keeps its old contents" % (p, cnt.strip(), bound.strip()), cnt.strip(), bound.strip())
+    return n
